@@ -65,6 +65,8 @@ def objectives(n):
     ["lincomb", _cyc([1, -2, 0.5], n), V, "c@x"],                                                                 # 6 linear in v
     ["un", "neg", _sum(["bin", "*", _c(2), X], Y)],                                                               # 7 negated linear
     _sum(_sq(["bin", "-", X, Y]), ["un", "cosh", Z], ["bin", "*", _c(0.5), ["dotself", V, "dot"]]),             # 8 smooth convex, coupled
+    _sum(_sq(["bin", "-", W, _c(1)]), _sq(["bin", "-", X, _c(2)]), _sq(["bin", "+", Y, _c(1)])),                  # 9 convex over {w10, x, y}
+    _sum(_sq(["bin", "-", X, _c(2)]), _sq(["bin", "+", Y, _c(1)]), _sq(["bin", "-", Z, _c(3)])),                  # 10 convex over {x, y, z}: same count as 9
     ]
 
 
@@ -87,8 +89,8 @@ def constraints(n):
 
 
 OBJECTIVES, CONSTRAINTS = objectives(3), constraints(3)   # index ranges (the recipes are rebuilt per case for its vector size)
-METHODS = ["auto", "auto", "linprog", "SLSQP", "trust-constr", "L-BFGS-B"]
-CONVEX = [1, 2, 8]  # strictly convex in every variable they mention... (5 and 4 are convex but mention fewer variables)
+METHODS = ["auto", "auto", "linprog", "SLSQP", "trust-constr", "L-BFGS-B", "solve_lp()"]   # solve_lp(): the public function of optyx.solvers.lp_solver
+CONVEX = [1, 2, 8, 9, 10]  # strictly convex in every variable they mention... (5 and 4 are convex but mention fewer variables)
 BOUNDS = [None, -2, 0, 1, 3, -4, 2, 5]
 INIT_LB, INIT_UB = -10.0, 10.0
 
@@ -136,7 +138,7 @@ def histories(draw):
     if draw(st.integers(0, 2)) == 0 and not free_start:
         # LP episodes: a whole-vector row, LP solve, an edit that forces re-extraction or only touches one element's
         # bound, LP solve again (the transitions the LP cache has to survive)
-        m = draw(st.sampled_from(["auto", "linprog"]))
+        m = draw(st.sampled_from(["auto", "linprog", "solve_lp()"]))
         steps += [[draw(st.sampled_from(["minimize", "maximize"])), 6], ["subject_to", draw(st.sampled_from([10, 11]))], ["solve", m]]
         for _ in range(draw(st.integers(1, 2))):
             e = draw(st.sampled_from(["row", "elem", "elem", "vec"]))
@@ -147,6 +149,12 @@ def histories(draw):
             else:
                 steps.append([draw(st.sampled_from(["set_lb", "set_ub"])), "v", draw(st.sampled_from([-2, 0, 1, 3]))])
             steps.append(["solve", m])
+        nsolves += 2
+    if draw(st.integers(0, 5)) == 0 and not free_start:
+        # the objective is replaced by one over another variable set of the SAME size while a general constraint stays
+        m = draw(st.sampled_from(["SLSQP", "auto", "trust-constr"]))
+        a_, b_ = draw(st.sampled_from([(9, 10), (10, 9)]))
+        steps += [["minimize", a_], ["subject_to", draw(st.sampled_from([0, 1, 3]))], ["solve", m], ["minimize", b_], ["solve", m]]
         nsolves += 2
     if nsolves == 0:
         steps.append(["solve", draw(st.sampled_from(METHODS))])
@@ -209,7 +217,11 @@ def _observe(P, what, arg=None):
     """('ok', payload) | ('raise', exception type name)"""
     try:
         if what == "solve":
-            s = P.solve(method=arg)
+            if arg == "solve_lp()":
+                from optyx.solvers.lp_solver import solve_lp
+                s = solve_lp(P)
+            else:
+                s = P.solve(method=arg)
             return ("ok", {"status": s.status.value, "objective": s.objective_value, "values": dict(s.values)})
         if what == "variables":
             return ("ok", [v.name for v in P.variables])
